@@ -2,7 +2,7 @@
    configuration).  Only pinned statements, closed by [exact lemma], with Print Assumptions. *)
 From Coq Require Import List NArith Bool.
 From FT Require Import Model.Base Model.Local Model.Records Model.Spsc Model.Collector Model.System
-     Proofs.SpscProofs Proofs.CollectorProofs Proofs.RecordsProofs Proofs.ApiProofs Proofs.DeliveryProofs Proofs.SystemDeliveryProofs Proofs.DrainProofs Proofs.EndToEndProofs Proofs.HistoryProofs.
+     Proofs.SpscProofs Proofs.CollectorProofs Proofs.RecordsProofs Proofs.ApiProofs Proofs.DeliveryProofs Proofs.SystemDeliveryProofs Proofs.DrainProofs Proofs.EndToEndProofs Proofs.HistoryProofs Proofs.WholeProofs Proofs.HoldProofs.
 From Coq Require Import Permutation.
 Import ListNotations.
 Open Scope N_scope.
@@ -251,6 +251,33 @@ Example C01_two_cycles_example :
   map core3 (snd (run_batches (fun x => x) [] [b1; b2])) = [(7, 5, 4); (7, 4, 100)].
 Proof. vm_compute. reflexivity. Qed.
 
+(* THE BATCH IS WHAT WAS POPPED.  Through any history of calls, pushes, exits, spawns and
+   drain steps of any threads (no process step, no new reporter) the collector's batch is the
+   batch it held before with the commands POPPED from command channels along the history
+   added in pop order: nothing enters a batch except by a pop, nothing popped is left out of
+   it, nothing is reordered.  From a reachable idle state the batch handed to the process step
+   is built from the empty batch by exactly the commands that cycle popped. *)
+Theorem C01_batch_is_the_popped_commands :
+  forall h s, no_process_no_install h ->
+    s_batch (fst (run s h)) = fold_left batch_add (popped_cmds s h) (s_batch s).
+Proof. exact run_batch. Qed.
+
+Theorem C01_cycle_batch_is_the_popped_commands :
+  forall dbg ringcap stackcap qcap h0 h,
+    let s := fst (run (sys_init dbg ringcap stackcap qcap) h0) in
+    s_pc s = PIdle -> no_process_no_install h ->
+    s_batch (fst (run s h)) = fold_left batch_add (popped_cmds s h) batch_empty.
+Proof. exact cycle_batch_is_the_popped_commands. Qed.
+
+Example C01_batch_is_the_popped_commands_example :
+  let pre := [AInstall false; ASpawn 1 1 0; ACall 1 (KRoot 1 2 77 5 true); APush 1; ACall 1 (KChild 2 3 1);
+              ACall 1 (KDropSpan 2); APush 1; ACall 1 (KDropSpan 1); APush 1; APush 1] in
+  let s := fst (run (sys_init false 8 16 16) pre) in
+  let h := [ACBegin; ACPop; ACPop; ACPop; ACPop; ACPop; ACCheck] in
+  (s_pc s, lenN (popped_cmds s h), b_start (s_batch (fst (run s h))), b_commit (s_batch (fst (run s h))),
+   lenN (b_submit (s_batch (fst (run s h))))) = (PIdle, 4, [0], [0], 2).
+Proof. vm_compute. reflexivity. Qed.
+
 Print Assumptions C01_finish_submits_once.
 Print Assumptions C01_submit_is_one_command.
 Print Assumptions C01_channel_thins_only.
@@ -269,3 +296,5 @@ Print Assumptions C01_commands_of_a_call_land.
 Print Assumptions C01_tracked_in_every_reachable_state.
 Print Assumptions C01_finished_span_is_reported.
 Print Assumptions C01_history_reports_exactly_what_was_popped.
+Print Assumptions C01_batch_is_the_popped_commands.
+Print Assumptions C01_cycle_batch_is_the_popped_commands.
